@@ -310,6 +310,26 @@ func runC12(t *testing.T, e *worlds.Env, tier string) (bool, any) {
 					srvB.VerifHandle(&tapConn{Conn: c, buf: &tapB})
 				})
 			}
+			if tp.Prob(1, 4, "earlier-handler") {
+				// history: another proxy handler for the same upstream addresses, configured for the other
+				// header version (or none), was provisioned before - still live, or already cleaned up as
+				// after a reload. Peers are shared by address; the header version is the handler's.
+				other := map[int]string{1: "v2", 2: "v1"}[sendVer]
+				if tp.Prob(1, 3, "earlier-none") {
+					other = ""
+				}
+				hOld := &l4proxy.Handler{Upstreams: l4proxy.UpstreamPool{&l4proxy.Upstream{Dial: append([]string(nil), dialsTo...)}}, ProxyProtocol: other}
+				if err := hOld.Provision(e.Ctx); err != nil {
+					panic(err)
+				}
+				hOld.VerifSetLogger(e.Log)
+				if tp.Prob(1, 2, "earlier-cleaned-up") {
+					_ = hOld.Cleanup()
+				} else {
+					e.S.OnCleanup(func() { _ = hOld.Cleanup() })
+				}
+				sample.Send += " (earlier handler: " + other + ")"
+			}
 			h := &l4proxy.Handler{Upstreams: l4proxy.UpstreamPool{&l4proxy.Upstream{Dial: dialsTo}}, ProxyProtocol: "v" + strconv.Itoa(sendVer)}
 			if failover {
 				h.Upstreams = append(l4proxy.UpstreamPool{&l4proxy.Upstream{Dial: []string{"tcp/10.1.0.9:80"}}}, h.Upstreams...)
